@@ -261,9 +261,6 @@ def canon_gen_model(g):
     recs = []
     for r in g["records"]:
         ents = r["entries"]
-        if r["kind"] == "file":
-            # the writer sorts the format elements of a <hash> by format name (stable)
-            ents = sorted(ents, key=lambda e: e["fmt"])
         recs.append({"path": r["path"], "kind": r["kind"], "size": r["size"] if r["kind"] == "file" else None, "prev": r["prev"], "entries": ents})
     return {"file": g["file"], "process": g["process"], "roothash": g["roothash"], "ignore": g["ignore"], "records": recs, "references": g["references"]}
 
